@@ -444,9 +444,11 @@ func (c *SizedLRU) performQueuedEvictions() {
 	sliceOfEntries := <-c.queuedEvictionsChan
 
 	for _, kv := range sliceOfEntries {
+		verifYield("evict.unlink")
 		c.onEvict(kv.key, kv.value)
 		c.queuedEvictionsSize.Add(-kv.value.sizeOnDisk)
 	}
+	verifYield("evict.batchdone")
 }
 
 // Note that this method may be invoked without holding the diskCache.mu mutex.
